@@ -35,3 +35,48 @@ extern "C" int h_save() {
   __vp_reached("save.end");
   return 0;
 }
+// C14: saving is pure, repeatable and writes only defined bytes.  source 0: API-built object (and a second,
+// independently built equal object), source 1: object loaded from "in.c3d".
+extern "C" void __vp_sym_reset() noexcept;
+extern "C" int h_c14() {
+  const int source = __vp_cfg("source");
+  if (source == 0) {
+    ezc3d::c3d c; Built B; build_object(c, B);
+    dump_all(c, "pre", true);
+    c.write("a.c3d");
+    dump_all(c, "mid", true);
+    c.write("b.c3d");
+    dump_all(c, "post", true);
+    __vp_sym_reset();                       // the same symbolic inputs again: an equal object built independently
+    ezc3d::c3d c2; Built B2; build_object(c2, B2);
+    c2.write("c.c3d");
+    __vp_tag("files"); __vp_obs_file("a.c3d"); __vp_obs_file("b.c3d"); __vp_obs_file("c.c3d");
+  } else {
+    ezc3d::c3d c("in.c3d");
+    dump_all(c, "pre", true);
+    c.write("a.c3d");
+    dump_all(c, "mid", true);
+    c.write("b.c3d");
+    dump_all(c, "post", true);
+    ezc3d::c3d c2("in.c3d");
+    c2.write("c.c3d");
+    __vp_tag("files"); __vp_obs_file("a.c3d"); __vp_obs_file("b.c3d"); __vp_obs_file("c.c3d");
+  }
+  __vp_reached("c14.end");
+  return 0;
+}
+// C15: a save that did not reach the disk is reported
+extern "C" int h_c15() {
+  const int source = __vp_cfg("source");
+  ezc3d::c3d* c;
+  if (source == 0) { c = new ezc3d::c3d(); Built B; build_object(*c, B); } else c = new ezc3d::c3d("in.c3d");
+  __vp_tag("save");
+  int out = 0;
+  try { c->write("out.c3d"); }
+  catch (std::ios_base::failure&) { out = 1; }
+  catch (std::exception&) { out = 9; }
+  __vp_obs_u64("outcome", out);
+  delete c;
+  __vp_reached("c15.end");
+  return 0;
+}
